@@ -17,7 +17,7 @@ RULE = ('Hypothesis-generated frame values of each of the 14 types (stream ids 0
         'same fields), canonical (serialize(parse(b)) == b), partial write through the real TransportTCP.send_frame '
         '(one frame into a copying writer, and sequences of 2-6 frames into a writer that keeps the objects it was '
         'handed, as asyncio does when the socket is not writable, read back after the last frame; a frame object written '
-        'again after its payload grew, and an object decoded from non-canonical bytes forwarded as it is; the value with the metadata flag set and empty metadata, which the fragmenter builds at an exact fit, must give its data back) '
+        'again after its payload grew, an object whose byte strings are bytearrays written twice, and an object decoded from non-canonical bytes forwarded as it is; the value with the metadata flag set and empty metadata, which the fragmenter builds at an exact fit, must give its data back) '
         'against a recording writer (concatenated writes == 3-byte length + bytes), serialize_with_frame_size_header, '
         'all on both codec backends (cbitstruct and native struct, the second imported with cbitstruct masked) with '
         'identical results; plus exhaustive comparison of the two header parsers over 64 type codes x 1024 flag '
@@ -104,6 +104,21 @@ def check_value(v, vs_list=None):
                 if again != refcodec.frame_with_length(body):
                     out.append(viol('partial_write_differs', 'C02:partial_write:reused_object:%s' % v['type'], type=v['type'],
                                     backend=var.name, got=again[:16].hex(), want=refcodec.frame_with_length(body)[:16].hex()))
+            if nv.get('metadata') and nv.get('data') and v['type'] not in ('RESUME', 'RESUME_OK'):
+                # byte strings handed over as bytearray (what the decoder itself produces, and what an application that
+                # re-uses a buffer passes): writing the frame must not change it - a second write gives the same bytes
+                fr3 = frames.to_repo(var, v)
+                if isinstance(getattr(fr3, 'metadata', None), (bytes, bytearray)) and isinstance(getattr(fr3, 'data', None), (bytes, bytearray)):
+                    fr3.metadata = bytearray(fr3.metadata)
+                    fr3.data = bytearray(fr3.data)
+                    first = written_by(fr3)
+                    second = written_by(fr3)
+                    want3 = refcodec.frame_with_length(ref)
+                    if first != want3 or second != want3 or fr3.serialize() != ref:
+                        which = 'first' if first != want3 else ('second' if second != want3 else 'one_shot_after')
+                        out.append(viol('partial_write_differs', 'C02:partial_write:bytearray_fields:%s:%s' % (which, v['type']),
+                                        type=v['type'], backend=var.name, got_len=len(second), want_len=len(want3),
+                                        metadata_len_after=len(fr3.metadata), metadata_len=len(nv['metadata'])))
             if nv.get('metadata') is None and v['type'] in ('PAYLOAD', 'REQUEST_RESPONSE', 'REQUEST_FNF', 'REQUEST_STREAM',
                                                            'REQUEST_CHANNEL'):
                 # non-canonical input: METADATA flag with a zero-length metadata block (the encoder drops both)
